@@ -68,13 +68,13 @@ PosSchema(un) ==
     [] un.ctx = "nested" -> (IF Has(un.schema.properties[1].s, "ref") THEN un.schema.properties[1].s
                             ELSE un.schema.properties[1].s.properties[1].s)
     [] un.ctx = "addl"   -> un.schema.additionalProperties.s
-\* under deviation UntypedEnumDefUnvalidated a reference to a definition with neither `type` nor `properties` is an
+\* under deviation BareDefUnvalidated a reference to a definition without any of type / properties / enum / allOf / anyOf is an
 \* interface{} field: it holds the document verbatim (unknown keys, empty values, no defaults), which a typed
 \* field re-marshals differently
 IfaceField(un, D) ==
   LET ps == PosSchema(un) IN
-  /\ "UntypedEnumDefUnvalidated" \in D /\ Has(ps, "ref")
-  /\ LET t == EnvGet(Env(un), ps.ref.n) IN ~Has(t, "type") /\ ~Has(t, "properties")
+  /\ "BareDefUnvalidated" \in D /\ Has(ps, "ref")
+  /\ BareDef(EnvGet(Env(un), ps.ref.n))
 Same(a, b) == ObsV(a) = ObsV(b) /\ (ObsV(a) = Acc => (a.out.t # "none" /\ b.out.t # "none" /\ JEq(StripAP(a.out), StripAP(b.out))))
 
 \* class of document i of form f against the inline form b
@@ -103,14 +103,13 @@ Explains(b, f, i) ==
 
 StripPtr(g) == IF Len(g) > 0 /\ SubSeq(g, 1, 1) = "*" THEN SubSeq(g, 2, Len(g)) ELSE g
 \* one Go type shared by all referrers: in the forms where x and x2 refer to ONE definition
-\* (a target the as-is generator maps to interface{} -- deviation UntypedEnumDefUnvalidated: neither `type` nor
-\* `properties` -- has no Go type to share)
+\* (a target the as-is generator maps to interface{} -- deviation BareDefUnvalidated -- has no Go type to share)
 SharedClass(f) ==
   IF f.unit.ctx # "req2" \/ f.unit.form = "inline" THEN "none"
   ELSE LET xs == f.unit.schema.properties[1].s
            t  == EnvGet(Env(f.unit), xs.ref.n)
        IN IF f.tx # "" /\ StripPtr(f.tx) = StripPtr(f.tx2) THEN "ok"
-          ELSE IF "UntypedEnumDefUnvalidated" \in Devs /\ ~Has(t, "type") /\ ~Has(t, "properties") THEN "none"
+          ELSE IF "BareDefUnvalidated" \in Devs /\ BareDef(t) THEN "none"
           ELSE "violation"
 
 \* a form that does not generate or compile although the inline form does
